@@ -11,7 +11,7 @@ Lemma step_hb sess me alt nd a res :
   match res with
   | Ok (nd', a', t') => (AInv sess (set_thr a' RHb t') /\ delta me RHb a nd nd' (set_thr a' RHb t')) /\ node_frame nd nd'
   | Blocked => True
-  | Panic site => cclosed (n_pcd nd) = true /\ site = "send on closed channel"%string
+  | Panic site => cclosed (n_pcd nd) = true /\ site = "send on closed channel"%string /\ at_pc a RHb FDo 5 = true
   end.
 Proof.
   intros Hinv H.
